@@ -155,27 +155,39 @@ def run_case(case):
         present = []
         m = CRevisionModel(o, [])
         removed_once = False
+        ever_removed = set()
         steps = []
-        for _ in range(rng.randint(4, 9)):
+        total_steps = rng.randint(5, 12)
+        for nstep in range(total_steps):
             absent = [i for i in idxs if i not in present]
             r = rng.random()
             if (r < 0.5 and absent) or not present:
                 i = rng.choice(absent)
+                if i in ever_removed and rng.random() < 0.6:
+                    cbi[i] = rand_cond(rng, sig)          # the index is reused for ANOTHER conditional
+                    desc['conditionals'][i] = fml.cond_text(*cbi[i])
+                    steps.append('add %d as %s' % (i, fml.cond_text(*cbi[i])))
+                    bump('indices_reused_for_another_conditional')
+                else:
+                    steps.append('add %d' % i)
                 m.add_conditional(mkconds([i])[0])
                 present.append(i)
-                steps.append('add %d' % i)
             elif r < 0.9:
                 i = rng.choice(present)
                 m.remove_conditional(i)
                 present.remove(i)
+                ever_removed.add(i)
                 removed_once = True
                 steps.append('remove %d' % i)
             else:
                 i = rng.choice(absent) if absent else 99
                 m.remove_conditional(i)                # removing an absent index is a no-op
                 steps.append('remove-absent %d' % i)
-            res['evals'] += 1
             bump('history_steps')
+            if rng.random() < 0.45 and nstep < total_steps - 1:
+                continue                  # the model is not compiled after every step
+            res['evals'] += 1
+            bump('history_compilations_compared')
             try:
                 got = norm(m.to_compilation())
             except Exception as e:
